@@ -75,6 +75,10 @@ func config(name string) pmc.Cfg {
 		c.C, c.Byz = kit.WeightedCommittee(1, 7, 1, 1), []int{0}
 	case "K8b": // weights 1,7,1,1: the three light members (weight 3 = f) are Byzantine, the only correct member is a quorum alone
 		c.C, c.Byz = kit.WeightedCommittee(1, 7, 1, 1), []int{0, 2, 3}
+	case "K10": // weights 7,1,1,1, nobody Byzantine: the leader of view 0 is a quorum by itself (decides inside its own proposal step)
+		c.C = kit.WeightedCommittee(7, 1, 1, 1)
+	case "K10b": // the same with the three light members silent
+		c.C, c.Silent = kit.WeightedCommittee(7, 1, 1, 1), []int{1, 2, 3}
 	case "K7": // 7 equal, two Byzantine members (leaders of views 0 and 1)
 		c.C, c.Byz = kit.EqualCommittee(7), []int{0, 1}
 	default:
@@ -144,7 +148,7 @@ func plan(prop, tier string) []run {
 		if !q {
 			bud = 90 * time.Second
 		}
-		for _, c := range [][2]string{{"K1^2@v1", "M1"}, {"K2^2@v0e", "M2"}, {"K5^2@v0", "M0"}} {
+		for _, c := range [][2]string{{"K1^2@v1", "M1"}, {"K2^2@v0e", "M2"}, {"K5^2@v0", "M0"}, {"K10^2@v1", "M0"}, {"K10b^2@v1", "M0"}} {
 			r = append(r, run{cfg: c[0], menu: c[1], prims: menus[c[1]], budget: bud, maxV: 1})
 		}
 		return r
@@ -232,6 +236,8 @@ func plan(prop, tier string) []run {
 		add("K6", "M7", 0, mul*10*time.Second)
 		add("K3b@v4a", "M1", 0, mul*20*time.Second) // two correct members of weights 3,4 (both needed), views up to 4: exhaustive (~2.6e5 states)
 		add("K3b@v2", "M3", 0, mul*10*time.Second)  // every vote variant of two Byzantine members for the correct leader of view 2: exhaustive
+		add("K10^2@v1", "M0", 0, mul*5*time.Second)   // weights 7,1,1,1: the first leader is a quorum by itself and decides inside its own proposal step: exhaustive
+		add("K10b^2@v1", "M0", 0, mul*5*time.Second)  // the same with the light members silent
 		add("K1@v1a", "MNC", 0, mul*10*time.Second) // the adversary's own messages signed over non-canonical header encodings: exhaustive
 		add("K3b@v1", "MNC", 0, mul*10*time.Second) // the same with two Byzantine members, weighted: exhaustive
 		add("K2@v1a", "MNC", 0, mul*25*time.Second) // the same from the proposer of view 0 (PREPREPARE, votes to the correct leader of view 1): exhaustive
@@ -385,6 +391,10 @@ func main() {
 			// the code keeps state the canonical dump does not show: no verdict from the merged search; what the diverging
 			// executions themselves violated is still reported if the table-free replay reproduces it
 			info["abstraction_unsound"] = true
+			unsound = e.Unsound
+		}
+		// violations seen on one node's local history (the first step of a node; the diverging executions of an unsound merge)
+		{
 			seenL := map[string]bool{}
 			for _, f := range e.LocalFound {
 				if !cfg.Report[f.V.Prop] && cfg.Report != nil || seenL[f.V.FP()] {
@@ -397,10 +407,9 @@ func main() {
 				if doReplay(path, false) == 1 {
 					violations++
 					printed = append(printed, fmt.Sprintf("VIOLATION property=%s replay=%s", *prop, path))
-					fmt.Fprintf(os.Stderr, "  %s/%s (local history, merged search stopped): %s %s: %s\n", rn.cfg, rn.menu, f.V.Prop, f.V.Clause, f.V.Detail)
+					fmt.Fprintf(os.Stderr, "  %s/%s (local history of n%d, %d events): %s %s: %s\n", rn.cfg, rn.menu, f.Node, len(f.Hist), f.V.Prop, f.V.Clause, f.V.Detail)
 				}
 			}
-			unsound = e.Unsound
 		}
 		if len(samples) < 3 && e.States > 1 {
 			samples = append(samples, e.SampleTrace())
